@@ -262,6 +262,21 @@ func inspectAVP(c *ev.Case, a *diam.AVP, class string) {
 	}
 }
 
+// c03Shape3: destinations of a fixed size (Go converts a slice to an array when it is long
+// enough, and panics when it is not: the length is the peer's)
+type c03Shape3 struct {
+	Host4  [4]byte    `avp:"Host-IP-Address"`
+	Host16 *[16]byte  `avp:"Host-IP-Address"`
+	Hosts  [][4]byte  `avp:"Host-IP-Address"`
+	A      [6]byte    `avp:"G-Addr"`
+	V4     [4]byte    `avp:"G-IPv4"`
+	V6     *[16]byte  `avp:"G-IPv6"`
+	V6s    [][16]byte `avp:"G-IPv6"`
+	Oct    [8]byte    `avp:"G-Octets"`
+	Name   [3]byte    `avp:"Origin-Host"`
+	State  [4]byte    `avp:"Origin-State-Id"`
+}
+
 // inspectBounded: the inspections whose allocations are measured against the size of the input.
 var inspectBounded = map[string]bool{"String": true, "PrettyDump": true, "Serialize": true, "Len": true, "Answer": true,
 	"Unmarshal-CER": true, "Unmarshal-CEA": true, "Unmarshal-shape1": true, "Unmarshal-shape2": true}
@@ -283,6 +298,7 @@ func inspect(c *ev.Case, ctx *lib.Ctx, m *diam.Message, in []byte, class string)
 		{"Unmarshal-DWA", func() { m.Unmarshal(new(smparser.DWA)) }},
 		{"Unmarshal-shape1", func() { m.Unmarshal(new(c03Shape1)) }},
 		{"Unmarshal-shape2", func() { m.Unmarshal(new(c03Shape2)) }},
+		{"Unmarshal-shape3", func() { m.Unmarshal(new(c03Shape3)) }},
 		{"Parse-CER", func() { new(smparser.CER).Parse(m, smparser.Server) }},
 		{"Parse-CEA", func() { new(smparser.CEA).Parse(m, smparser.Client) }},
 		{"FindAVP", func() {
@@ -369,6 +385,7 @@ func offerQuiet(c *ev.Case, ctx *lib.Ctx, in []byte) {
 		{"Serialize", func() { m.Serialize() }},
 		{"Unmarshal-shape1", func() { m.Unmarshal(new(c03Shape1)) }},
 		{"Unmarshal-shape2", func() { m.Unmarshal(new(c03Shape2)) }},
+		{"Unmarshal-shape3", func() { m.Unmarshal(new(c03Shape3)) }},
 		{"FindAVP", func() {
 			m.FindAVP("Origin-Host", refdict.AnyVendor)
 			for _, a := range m.AVP {
